@@ -13,7 +13,7 @@ Specification (C06): for a generic remaining family F and element e
 from __future__ import annotations
 
 from .. import formula as F
-from ..absint import iter_events
+from ..absint import iter_events, Interp
 from ..absvals import Const, Sym, Ref, TupleV, ElemV, PTRUE, show_pred
 from ..front import AnalysisError
 from ..harness import (Explorer, make_belief_base, material, verification, canon_items, canon_item, flat, each_item,
@@ -526,6 +526,7 @@ def check_all(rep, ex: Explorer, only=None):
             continue
         evaluated(rep, ex, qual, role)
         evaluated_duplicates(rep, ex, qual, role)
+        evaluated_second_call(rep, ex, qual, role)
         # a routine that hands the work to its sibling (the partition computed once, over keys or over conditionals, and
         # converted): the loop the generic reading looks for lives in the sibling and is read there; what this routine makes
         # of the sibling's result is decided by the evaluation above
@@ -576,3 +577,53 @@ def check_siblings(rep, ex: Explorer):
     a = analyse(ex, "inference.consistency_sat.consistency")
     b = analyse(ex, "inference.consistency_sat.consistency_indices")
     rep.ok("PART.siblings", "inference/consistency_sat.py:consistency|consistency_indices", "same reference", "both variants are evaluated against one reference (PART.partition)", extracted=f"{len(a)}/{len(b)} abstract paths")
+
+
+def evaluated_second_call(rep, ex: Explorer, qual: str, role: str):
+    """PART.partition [second call on a base that changed]: the partition of a base is that of the conditionals it holds at the
+    time of the call.  The routine is run on a base of one conditional, that conditional is then replaced under its key (same
+    key, same size), and the routine is run again on the same base object: the second verdict must rest on a tolerance test of
+    the conditional the base holds now - not on anything the first call left behind (on the base object, on the module)."""
+    from ..absvals import HDict, HObj
+    from ..harness import BB_CLASS
+
+    prog = ex.prog
+    site = fn_label(prog, qual)
+    fi = prog.function(qual)
+    n = 0
+    for weakly in (False, True):
+        marks = {}
+
+        def setup(I, weakly=weakly, marks=marks):
+            conds = I.alloc(HDict(entries={7: ElemV(("obj", "old"), "cond")}))
+            bb = I.alloc(HObj(BB_CLASS, {"conditionals": conds, "signature": Sym(("signature", "D")), "name": Sym(("bbname", "D"), "str")}))
+            I.call_function(fi, [bb, Const("z3"), Const(weakly)], {}, None, force_inline=True)
+            I.deref(conds).entries[7] = ElemV(("obj", "new"), "cond")
+            I.log("second.call", None)
+            return [bb, Const("z3"), Const(weakly)], {}
+
+        I_ = Interp(prog)
+        I_.unroll_while = 5
+        try:
+            paths = I_.explore(qual, setup)
+        except AnalysisError as e:
+            raise AnalysisError(f"{site}: two calls in a row on one base cannot be evaluated: {e}"[:300])
+        if ex.report is not None:
+            ex.report.absorb_stats(I_)
+        ver_new = canon_item(("f", verification(("obj", "new"))))
+        for p in paths:
+            if p.outcome[0] != "return":
+                continue
+            evs = [ev for ev, Q in iter_events(p.events)]
+            cut = next((i for i, ev in enumerate(evs) if ev.kind == "second.call"), None)
+            if cut is None:
+                raise AnalysisError(f"{site}: marker of the second call not found")
+            tests = [ev for ev in evs[cut:] if ev.kind == "query"]
+            asked_new = any(ver_new in [canon_item(i) for i in flat(ev.frames)] for ev in tests)
+            n += 1
+            mode = "extended" if weakly else "strict"
+            rep.check(asked_new, "PART.partition", site, f"second call after a conditional was replaced ({mode})",
+                      "the verdict comes from the tolerance tests of the conditionals the base holds at the time of the call (nothing remembered on the base object or the module stands in for them)",
+                      extracted=("tests the conditional now in the base" if asked_new else f"answers without testing the conditional now in the base ({len(tests)} tests in the second call): the first call's result is handed out again"),
+                      required="a tolerance test of the new conditional", function=site)
+    rep.floor("second calls evaluated", n, 2)
